@@ -10,4 +10,6 @@ let () =
   | _ :: "gsession" :: _ -> Cmd_session.grun ()
   | _ :: "lfdbt" :: rest -> Cmd_lfdbt.run rest
   | _ :: "adapters" :: _ -> Cmd_adapters.run ()
+  | _ :: "orig" :: rest -> Cmd_v1.run ~orig:true rest
+  | _ :: "naive" :: rest -> Cmd_v1.run ~orig:false rest
   | _ -> prerr_endline "usage: fvm <layout|...>"; exit 2
